@@ -33,14 +33,8 @@ def s_mux():
     return gens.csr_layout(max_regs=6)
 
 
-@st.composite
-def s_csr_decoder(draw):
-    n = draw(st.integers(0, 5))
-    subs = [{"aw": draw(st.integers(1, 5)), "named": draw(st.booleans()),
-             "place": draw(st.sampled_from(["imp", "imp", "align", "slot"])),
-             "k": draw(st.integers(0, 6))} for _ in range(n)]
-    return {"aw": draw(st.integers(1, 8)), "dw": draw(st.sampled_from(gens.CSR_DWS)),
-            "al": draw(st.integers(0, 3)), "subs": subs}
+def s_csr_decoder():
+    return gens.csr_decoder_config()
 
 
 def _reg_spec():
@@ -100,28 +94,8 @@ def s_wb_csr_bridge():
                                   "named": st.booleans()})
 
 
-@st.composite
-def s_wb_decoder(draw):
-    geo = draw(gens.wb_geometry(max_aw=7))
-    al = draw(st.integers(0, 2))
-    n = draw(st.integers(0, 5))
-    gbits = exact_log2(geo["dw"] // geo["g"])
-    subs = []
-    for _ in range(n):
-        sparse = draw(st.sampled_from([False, False, True]))
-        feat = draw(gens.wb_features())
-        if draw(st.integers(0, 3)) > 0:
-            feat = [f for f in feat if f not in ("err", "rty", "stall") or f in geo["feat"]]
-        if not sparse:
-            sub = {"aw": draw(st.integers(0, max(0, geo["aw"]))), "dw": geo["dw"], "g": geo["g"]}
-        else:
-            sdw = draw(st.sampled_from([x for x in (8, 16, 32, 64) if x <= geo["g"]]))
-            # covers at least one decoder word: sub map addr width >= granularity bits
-            sub = {"aw": draw(st.integers(max(gbits, 0), max(gbits, geo["aw"] + gbits))), "dw": sdw, "g": sdw}
-        sub.update(feat=feat, sparse=sparse, named=draw(st.booleans()),
-                   place=draw(st.sampled_from(["imp", "imp", "slot"])), k=draw(st.integers(0, 6)))
-        subs.append(sub)
-    return dict(geo, al=al, subs=subs)
+def s_wb_decoder():
+    return gens.wb_decoder_config()
 
 
 @st.composite
@@ -193,21 +167,11 @@ def build(spec):
             ports += flat_signals(r)
         return Built(comp, ports, len(regs), [("bus", "csr_target")])
     if c == "csr_decoder":
-        comp = csr.Decoder(addr_width=p["aw"], data_width=p["dw"], alignment=p["al"])
+        comp, ifaces, _ = gens.build_csr_decoder(p)
         ports = flat_signals(comp)
-        for i, s in enumerate(p["subs"]):
-            iface = csr.Interface(addr_width=s["aw"], data_width=p["dw"], path=(f"sub{i}",))
-            iface.memory_map = MemoryMap(addr_width=s["aw"], data_width=p["dw"])
-            kw = {}
-            if s["named"]:
-                kw["name"] = (f"w{i}",)
-            if s["place"] == "align":
-                comp.align_to(s["k"] % 6)
-            elif s["place"] == "slot":
-                kw["addr"] = s["k"] << s["aw"]
-            comp.add(iface, **kw)
+        for iface in ifaces:
             ports += flat_signals(iface)
-        return Built(comp, ports, len(p["subs"]), [("bus", "csr_target")])
+        return Built(comp, ports, len(ifaces), [("bus", "csr_target")])
     if c == "csr_bridge":
         b = csr.Builder(addr_width=p["aw"], data_width=p["dw"], granularity=p["g"])
         count = [0]
@@ -258,23 +222,11 @@ def build(spec):
         comp = WishboneCSRBridge(iface, data_width=p["wb_dw"], name=("csrs",) if p["named"] else None)
         return Built(comp, flat_signals(comp) + flat_signals(iface), 2, [("wb_bus", "wb_target")])
     if c == "wb_decoder":
-        comp = wishbone.Decoder(addr_width=p["aw"], data_width=p["dw"], granularity=p["g"],
-                                features=p["feat"], alignment=p["al"])
+        comp, ifaces, _ = gens.build_wb_decoder(p)
         ports = flat_signals(comp)
-        for i, s in enumerate(p["subs"]):
-            iface = wishbone.Interface(addr_width=s["aw"] if not s["sparse"] else max(0, s["aw"]),
-                                       data_width=s["dw"], granularity=s["g"], features=s["feat"],
-                                       path=(f"sub{i}",))
-            maw = max(1, iface.addr_width + exact_log2(s["dw"] // s["g"]))
-            iface.memory_map = MemoryMap(addr_width=maw, data_width=s["g"])
-            kw = {"sparse": s["sparse"]}
-            if s["named"]:
-                kw["name"] = (f"w{i}",)
-            if s["place"] == "slot":
-                kw["addr"] = s["k"] << maw
-            comp.add(iface, **kw)
+        for iface in ifaces:
             ports += flat_signals(iface)
-        return Built(comp, ports, len(p["subs"]), [("bus", "wb_target")])
+        return Built(comp, ports, len(ifaces), [("bus", "wb_target")])
     if c == "wb_arbiter":
         comp = wishbone.Arbiter(addr_width=p["aw"], data_width=p["dw"], granularity=p["g"],
                                 features=p["feat"])
